@@ -368,6 +368,7 @@ def foreign_index_case():
     from twisted.internet.testing import StringTransport
     from txdbus import protocol
     from .message_harness import ref_message
+    from . import wire_ref as W
 
     class Receiver(protocol.BasicDBusProtocol):
         def __init__(self): self.got = []
@@ -378,7 +379,10 @@ def foreign_index_case():
              ('ah', [[0, 0, 1]], [80, 81], [[80, 80, 81]]), ('h', [0], [90], [90]),
              # descriptors nested in dict entries and structs (option tables of real services): resolved like any other
              ('a{sh}', [{'out': 0, 'err': 1}], [100, 101], [{'out': 100, 'err': 101}]), ('a{u(hs)}', [{7: [0, 'x']}], [110], [{7: [110, 'x']}]),
-             ('a(sh)', [[['p', 1], ['q', 0]]], [120, 121], [[['p', 121], ['q', 120]]]), ('(s(ih))', [['n', [3, 0]]], [130], [['n', [3, 130]]])]
+             ('a(sh)', [[['p', 1], ['q', 0]]], [120, 121], [[['p', 121], ['q', 120]]]), ('(s(ih))', [['n', [3, 0]]], [130], [['n', [3, 130]]]),
+             # a descriptor as the direct content of a VARIANT (option tables a{sv} of real services), alone and beside plain descriptors
+             ('v', [W.Variant('h', 0)], [140], [140]), ('a{sv}', [{'fd': W.Variant('h', 1), 'n': W.Variant('u', 7)}], [150, 151], [{'fd': 151, 'n': 7}]),
+             ('hvh', [1, W.Variant('h', 2), 0], [160, 161, 162], [161, 162, 160]), ('av', [[W.Variant('h', 0), W.Variant('s', 'x'), W.Variant('h', 0)]], [170], [[170, 'x', 170]])]
     for le in (True, False):
         for lead in (False, True):
             r = Receiver()
